@@ -113,33 +113,7 @@ def d2(chk, prog):
                        f"`{norm(c)}` is a one-sided test: it holds whenever the left side is smaller, not only when the two are equal within the tolerance "
                        "(weighted_median([1,2,3],[1,1,1]) returns 1.5 instead of 2)")
     chk.floor("tolerance comparisons", n, 3)
-    # tie branch of weighted_median: the averaged pair starts at the index whose cumulative weight was tested
-    fi = prog.fn(f"{DESC}.weighted_median")
-    ties = [i for i in own_nodes(fi.node) if isinstance(i, ast.If) and any(_is_eps(x) for x in ast.walk(i.test))]
-    chk.floor("tie test in weighted_median", len(ties), 1)
-    for t in ties:
-        tested = [norm(s.slice) for s in ast.walk(t.test) if isinstance(s, ast.Subscript) and "cum" in norm(s.value)]
-        sl = [s for r in t.body if isinstance(r, ast.Return) for s in ast.walk(r) if isinstance(s, ast.Subscript) and isinstance(s.slice, ast.Slice)]
-        ok = len(tested) == 1 and len(sl) == 1 and sl[0].slice.lower is not None and norm(sl[0].slice.lower) == tested[0]
-        if ok:
-            up = sl[0].slice.upper
-            lo = sl[0].slice.lower
-            # upper == lower + 2
-            ok = up is not None and _plus(up) - _plus(lo) == 2 and _base(up) == _base(lo)
-        chk.decide(ok, "two-sided-tolerance", f"weighted_median tie branch averages a[k:k+2] for the tested cumulative weight index k={tested}", f"{fi.qn}::tie slice", fi.loc(t),
-                   f"tie branch tests cumulative weight at {tested} but averages `{norm(sl[0]) if sl else None}`: the two values around the half-weight point are a[k], a[k+1]")
 
-
-def _plus(e):
-    if isinstance(e, ast.BinOp) and isinstance(e.op, ast.Add) and isinstance(e.right, ast.Constant):
-        return e.right.value
-    if isinstance(e, ast.BinOp) and isinstance(e.op, ast.Sub) and isinstance(e.right, ast.Constant):
-        return -e.right.value
-    return 0
-
-
-def _base(e):
-    return norm(e.left) if isinstance(e, ast.BinOp) and isinstance(e.right, ast.Constant) else norm(e)
 
 
 def d3(chk, prog):
